@@ -532,6 +532,7 @@ class MolGraph:
         :param atoms: Iterable of atom ids to be
         :return: Subgraph
         """
+        atoms = tuple(atoms)  # atoms may be a one-shot iterator
         new_atoms = set(atoms)
         atom_attrs = {atom: deepcopy(self._atom_attrs[atom]) for atom in atoms}
         bond_attrs = {
